@@ -113,6 +113,12 @@ CHECKS["C19"] = dict(
     text="~790 classes per quick run (20 corpus contracts + ~770 generated, using all nine protocol builtins between them); per class: published-JSON vs in-memory class, class-hash and JSON stability, pythonic hints on/off, bytecode vs own recompilation, entry point offset / builtin list / selector order / selector == keccak(ABI name), hint offsets, segment length sum, max_bytecode_size = size and size-1.",
     note="Trusted: my own copy of the protocol builtin order and names; the decoded Sierra program as the thing the class means. Generated contracts rejected by the front end are skipped (health check bounds them).")
 
+CHECKS["C03"] = dict(
+    level="exploration", design="DESIGN.md 3/C03",
+    technique="fault-injection property-based testing: a wrapper around the honest hint processor rewrites, at one generated dynamic hint occurrence, the hint's output cells with a generated alternative value; metamorphic oracle: the run fails in the VM or its normalised result equals the honest run's",
+    text="~23,000 applied hint faults per quick run over 21 hint kinds (comparisons, divisions incl. u256 / u512, wide multiplication, square roots, linear split, inverse mod n, field square root, random EC point, dictionary squash loop hints, assert-le arcs), on e2e libfunc snippets, examples, a curated file of hint-rich corelib calls and generated programs; ~75% VM failures, ~24% same result, <1% aborts of the honest hint code.",
+    note="Not faulted (stated limit): pointer-producing hints, hints writing into builtin / dictionary segments, DebugPrint, EvalCircuit, deprecated hints, syscalls. Gas differences are not violations.")
+
 PENDING_REASON = "check not built yet in this session (planned in DESIGN.md section 3; the property itself is amenable to the technique)"
 
 def main():
